@@ -90,6 +90,17 @@ fn apply<T: Val>(s: &mut Stack<T>, op: &Tree) -> Option<Tree> {
             let mut it = std::iter::from_fn(move || src.next());
             unit(s.try_extend(&mut it))
         }
+        19 => {
+            // an iterator whose size hint has a LOOSE upper bound (it could yield up to `extra` more items, but does not)
+            let v = vs(o.get(1)?)?;
+            let extra = o.get(2)?.usize()?;
+            if extra > 1000 {
+                return None;
+            }
+            let n = v.len();
+            let mut it = (0..n + extra).filter_map(|i| v.get(i).cloned());
+            unit(s.try_extend(&mut it))
+        }
         17 => {
             // the trait's slice entry point
             let v = vs(o.get(1)?)?;
@@ -205,7 +216,9 @@ fn gen_hist(rng: &mut Sm, kind: i64, maxlen: usize) -> Tree {
             }
             81 => {
                 let n = rng.below(5);
-                if rng.chance(1, 2) {
+                if rng.chance(1, 3) {
+                    tl![A(19), L((0..n).map(|_| fresh(rng)).collect()), au(1 + rng.below(9))]
+                } else if rng.chance(1, 2) {
                     tl![A(17), L((0..n).map(|_| fresh(rng)).collect())]
                 } else {
                     let m = rng.below(3);
@@ -240,7 +253,7 @@ fn gen_hist(rng: &mut Sm, kind: i64, maxlen: usize) -> Tree {
 }
 
 fn exhaustive(g: &mut Gen, depth: usize) {
-    // all histories of length <= depth over a 13-operation alphabet, capacity 0..=2
+    // all histories of length <= depth over a 14-operation alphabet, capacity 0..=2
     let alphabet: Vec<Tree> = vec![
         tl![A(0), A(7)],
         tl![A(1)],
@@ -255,6 +268,7 @@ fn exhaustive(g: &mut Gen, depth: usize) {
         tl![A(3)],
         tl![A(17), L(vec![A(5), A(6)])],
         tl![A(18), L(vec![A(4)]), L(vec![A(2)])],
+        tl![A(19), L(vec![A(1)]), A(3)],
     ];
     for cap in 0..=2i64 {
         let mut stack: Vec<Vec<usize>> = vec![vec![]];
